@@ -92,6 +92,25 @@ func TestC16Descriptors(t *testing.T) { rapidGroup(t, "Descriptors") }
 // ---------------------------------------------------------------------------------------
 // Thorough tier: native fuzz targets, one per group; the first argument selects the target.
 
+// TestMain shortens the fuzz engine's input minimisation: the default budget of 60 s per
+// "interesting" input would eat a whole 60 s fuzzing slot (the targets run extra goroutines and
+// measure memory, so coverage is slightly noisy and the minimiser rarely converges early).
+func TestMain(m *testing.M) {
+	flag.Parse()
+	if fuzzing() {
+		explicit := false
+		flag.Visit(func(f *flag.Flag) {
+			if f.Name == "test.fuzzminimizetime" {
+				explicit = true
+			}
+		})
+		if !explicit {
+			_ = flag.Set("test.fuzzminimizetime", "3s")
+		}
+	}
+	os.Exit(m.Run())
+}
+
 func isFuzzWorker() bool {
 	f := flag.Lookup("test.fuzzworker")
 	return f != nil && f.Value.String() == "true"
